@@ -14,7 +14,7 @@ mpf = mpmath.mpf
 TOL = mpf(10) ** -35
 CONCRETE_PARAMS = {"scale"}
 SKIP = {"abs", "square", "np_sqrt", "np_cbrt", "np_power", "neg", "divide", "scale2D", "scale3D", "neg2D", "neg3D",
-        "transform2D_partial", "transform3D_partial"}     # operator / ufunc forms: not SymPy API under test here
+        "transform2D_partial", "transform3D_partial", "equal", "not_equal", "isclose"}     # operator / ufunc forms: not SymPy API under test here
 _cache = {}
 
 
